@@ -323,7 +323,12 @@ func TestC01(t *testing.T) {
 					return ""
 				}
 				class := ""
+				// (finding K14 needs an unrelated step that never ends: without one the fallback detector
+				// must end the run, and a hang is not that finding)
 				for _, o := range c.Main.Outputs {
+					if never == 0 {
+						break
+					}
 					o.Val.Walk(func(v *vcase.Val) {
 						if v.Expr != nil {
 							var refs []vcase.Ref
